@@ -126,7 +126,7 @@ def build_verus():
 def display_order_fn():
     imp = S.item(V, r'impl Display for VmError \{')
     loops = re.findall(r'for location in (.*?) \{\n', imp)
-    if len(loops) != 1 or len(re.findall(r'\bfor\b', imp)) != 1:
+    if len(loops) != 1 or len(re.findall(r'\bfor\s+\w+\s+in\b', imp)) != 1:
         raise S.SliceError("impl Display for VmError: expected exactly one `for location in ..` loop")
     expr = loops[0]
     body_uses = re.search(r'location\.filename, location\.lineno', imp) and re.search(r'location\.function_name', imp)
@@ -138,18 +138,22 @@ def display_order_fn():
             "        for location in %s {\n            v.push(location.lineno);\n        }\n        v\n    }\n" % (expr, e2)), expr, S.sha(imp)
 
 
-KANI = [
-    ('vm::u10::lookup_post', 'C32.tables.lookup.post', 'VmGreenThread::pc_to_error_location',
-     "for every pc >= 1 and all three tables of 1..=4 entries satisfying C32.tables.build.inv: reported line / file / function == "
-     "attribute of the last entry with start <= pc-1 (the VM increments pc before executing; call frames hold return addresses)"),
-    ('vm::u10::lookup_pc0_total', 'C32.tables.lookup.pc0', 'VmGreenThread::pc_to_error_location',
-     "pc == 0: no fault, reports entry 0"),
+KANI = [  # (harness, obligation id, function, text, tier, group)
+    ('vm::u10::lookup_post_line', 'C32.tables.lookup.post.line', 'VmGreenThread::pc_to_error_location',
+     "for every pc >= 1 and every lineno_table of 1..=4 entries satisfying C32.tables.build.inv: reported line == attribute of the last "
+     "entry with start <= pc-1 (the VM increments pc before executing; call frames hold return addresses)", 'quick', 0),
+    ('vm::u10::lookup_post_file', 'C32.tables.lookup.post.file', 'VmGreenThread::pc_to_error_location',
+     "same for filename_table / filename_arena", 'quick', 0),
+    ('vm::u10::lookup_post_func', 'C32.tables.lookup.post.func', 'VmGreenThread::pc_to_error_location',
+     "same for function_name_table / function_name_arena", 'quick', 0),
     ('vm::u10::trace_outermost_first', 'C32.trace.order.make_stack_trace', 'VmGreenThread::make_stack_trace',
-     "trace[k] == location of call_stack[k].pc - 1, k = 0 outermost (call stack <= 3 frames)"),
+     "trace.len() == call_stack.len() and trace[k] == pc_to_error_location(call_stack[k].pc), k = 0 outermost (call stack <= 3 frames; lookup stubbed to `lineno = pc` in this crate variant)", 'quick', 1),
     ('vm::u10::display_innermost_first', 'C32.trace.order.display', 'impl Display for VmError',
-     "iteration order of Display::fmt's loop: location, then trace reversed (innermost call site first)"),
+     "iteration order of Display::fmt's loop: location, then trace reversed (innermost call site first)", 'quick', 1),
+    ('vm::u10::lookup_pc0_total', 'C32.tables.lookup.pc0', 'VmGreenThread::pc_to_error_location',
+     "pc == 0: no fault, reports entry 0", 'thorough', 0),
 ]
-BOUND = "tables of 1..=4 entries (binary_search_by_key and the Vec helpers unwound 6x); call stack / trace of at most 3 frames"
+BOUND = "one symbolic table of 1..=4 entries per harness, the other two tables have one entry (binary_search_by_key and the Vec helpers unwound 6x); call stack of at most 3 frames, trace of 3"
 
 
 def run(tier="quick"):
@@ -158,6 +162,33 @@ def run(tier="quick"):
     try:
         t0 = time.time()
         check_single_writer()
+        import shutil
+        import concurrent.futures as cf
+        # ---- Kani crate (whole vm.rs, pc_to_error_location NOT stubbed) built first; its two harness groups run while Verus works
+        dfn, dexpr, dsha = display_order_fn()
+        hsrc = open(os.path.join(HERE, 'harness.rs')).read().rstrip()
+        if not hsrc.endswith('}'):
+            raise E.Undecided("harness.rs must end with the closing brace of mod u10")
+        hsrc = hsrc[:-1] + dfn + "}\n"
+        kdir = os.path.join(sc.path, "vmk")
+        kinfo = vmk.build(kdir, arms=[], harness_src=hsrc, stub_loc=False)
+        # second crate variant for the ORDER harnesses: pc_to_error_location stubbed (vmk K4) with `lineno = pc` (K4b)
+        kdir2 = os.path.join(sc.path, "vmk2")
+        kinfo2 = vmk.build(kdir2, arms=[], harness_src=hsrc, stub_loc=True)
+        vpath = os.path.join(kdir2, "src", "vm.rs")
+        vsrc = open(vpath).read()
+        stub_old = "        VmErrorLocation {\n            filename: String::new(),\n            lineno: 0,"
+        if vsrc.count(stub_old) != 1:
+            raise E.Undecided("vmk stub of pc_to_error_location not found (K4b)")
+        open(vpath, "w").write(vsrc.replace(stub_old, stub_old.replace("lineno: 0,", "lineno: pc.0,")))
+        loc_sha = S.sha(S.method(V, r'impl VmGreenThread \{', 'pc_to_error_location'))
+        sel = [k for k in KANI if k[4] == 'quick' or tier == 'thorough']
+        g0 = [k[0] for k in sel if k[5] == 0]
+        g1 = [k[0] for k in sel if k[5] == 1]
+        ex = cf.ThreadPoolExecutor(max_workers=2)
+        f0 = ex.submit(run_kani_seq, kdir, g0, 300)
+        f1 = ex.submit(run_kani_seq, kdir2, g1, 300)
+        # ---- Verus
         text, rew, sha = build_verus()
         path = sc.file("u10_tables.rs", text)
         res = E.run_verus(path)
@@ -168,7 +199,7 @@ def run(tier="quick"):
             errs.setdefault(fn, []).append(e['block'])
         by = {k.split("::")[-1]: v for k, v in res['functions'].items()}
         names = ['create_source_location_tables'] + list(LEMMAS)
-        cpath = sc.file("u10_canary.rs", canary_transform(text, names))
+        cpath = sc.file("u10_canary.rs", canary_transform(text, names, keep_verified=('create_source_location_tables',)))
         cres = E.run_verus(cpath)
         cby = {k.split("::")[-1]: v for k, v in cres['functions'].items()}
 
@@ -192,22 +223,17 @@ def run(tier="quick"):
         vob('create_source_location_tables', 'C32.tables.build.inv', T, CONTRACT + INV, sha)
         for fn, oid in LEMMAS.items():
             vob(fn, oid, 'verif/units/u10_srcloc/spec.rs', '')
-        # ---- Kani
-        dfn, dexpr, dsha = display_order_fn()
-        hsrc = open(os.path.join(HERE, 'harness.rs')).read().rstrip()
-        if not hsrc.endswith('}'):
-            raise E.Undecided("harness.rs must end with the closing brace of mod u10")
-        hsrc = hsrc[:-1] + dfn + "}\n"
-        kdir = os.path.join(sc.path, "vmk")
-        kinfo = vmk.build(kdir, arms=[], harness_src=hsrc, stub_loc=False)
-        loc_sha = S.sha(S.method(V, r'impl VmGreenThread \{', 'pc_to_error_location'))
-        kres, kcmd = run_kani_seq(kdir, [h for h, _, _, _ in KANI], 300)
-        for h, oid, fn, text_ in KANI:
+        # ---- Kani results
+        (r0, kcmd), (r1, _) = f0.result(), f1.result()
+        ex.shutdown()
+        kres = dict(r0)
+        kres.update(r1)
+        for h, oid, fn, text_, _, _ in sel:
             r = kres[h]
             st, detail = r['status'], "\n".join(r['failed'][:6])
             if st == E.DISCHARGED and not any(s == "SATISFIED" for _, s in r['cover']):
                 st, detail = E.UNDECIDED, "vacuity guard: no cover statement satisfied"
-            if st == E.DISCHARGED and h == 'vm::u10::lookup_post' and not all(s == "SATISFIED" for _, s in r['cover']):
+            if st == E.DISCHARGED and 'lookup_post' in h and not all(s == "SATISFIED" for _, s in r['cover']):
                 st, detail = E.UNDECIDED, "a lookup branch (Ok / Err(len) / first range) is not reachable in the harness: %r" % r['cover']
             if st != E.DISCHARGED and not detail:
                 detail = r['raw'][-1500:]
@@ -226,7 +252,7 @@ def run(tier="quick"):
             trusted_base=vmk.TRUSTED + ["verus 0.2026.09.13 + z3", "tools/slicer.py", "rewrite rule R1 (let-chain without else), R0", "units/u9_opt/letchain.py"],
             checker_cmds=[res['cmd'].replace(sc.path, "$SCRATCH"), kcmd],
             notes=dict(rewrites=rew, kani_rewrites=kinfo['rewrites'], verus_wall_s=round(res['wall_s'], 1),
-                       covers={h: kres[h]['cover'] for h, _, _, _ in KANI}, wall_s=round(time.time() - t0, 1)),
+                       covers={k[0]: kres[k[0]]['cover'] for k in sel}, wall_s=round(time.time() - t0, 1)),
         )
         return obs, info
     finally:
